@@ -273,6 +273,11 @@ def scenario():
             st.sampled_from(["i:", "t:", "i:", "t:", "serve"]),
             st.integers(1, 120),
             st.sampled_from([0.002, 0.01, 0.05, 0.2])), max_size=6)),
+        # up to three preemptions where nfcpy has no synchronisation point
+        "lines": st.one_of(st.just([]), st.just([]), st.lists(st.tuples(
+            st.sampled_from(["i:", "t:", "connect-i", "connect-t", "serve"]),
+            st.one_of(st.integers(1, 400), st.integers(1, 4000))),
+            min_size=1, max_size=3)),
         "seed": st.integers(0, 255)})
 
 
@@ -289,6 +294,11 @@ def run(case, ctx):
     if case.get("force"):
         P.sched.forced = {int(case["force"][0]): int(case["force"][1])}
     P.sched.stalls = [list(x) for x in case.get("stalls", [])]
+    if case.get("lines"):
+        # preemptions at source-line granularity: the named thread loses the
+        # CPU before its n-th line inside nfcpy (vsched line_preempt)
+        P.sched.line_trace = True
+        P.sched.line_preempt = [list(x) for x in case["lines"]]
     srv, cli = case["server"], ("t" if case["server"] == "i" else "i")
     threads = []          # (side, program, state dict)
     oldsock = {}
@@ -1136,6 +1146,29 @@ def enum_line_race(tier, seed):
                     yield dict(base, line=[[name, k]])
 
 
+def run_line_pairs(case, ctx):
+    """two or three preemptions at generated source lines (given as parts
+    per 10000 of what the thread executes in the undisturbed run)"""
+    base = {"prog": case["prog"], "rounds": case["rounds"], "choices": [],
+            "line": []}
+    n = run_loop_race(dict(base, count_lines=True), _NoCtx())
+    names = sorted(k for k in n if k != "controller" and n[k])
+    line = []
+    for who, frac in case["at"]:
+        name = names[who % len(names)]
+        line.append([name, 1 + frac * max(n[name] - 1, 1) // 10000])
+    return run_loop_race(dict(base, line=line), ctx)
+
+
+def line_pairs_case():
+    return st.fixed_dictionaries({
+        "prog": st.sampled_from(LOOP_PROGS),
+        "rounds": st.sampled_from([1, 1, 2, 6]),
+        "at": st.lists(st.tuples(st.integers(0, 3), st.integers(0, 9999)),
+                       min_size=2, max_size=3).map(
+            lambda l: [list(x) for x in l])})
+
+
 def enum_loop_race(tier, seed):
     import itertools
     n = 9 if tier == "quick" else 13
@@ -1181,6 +1214,13 @@ LEGS = [
              "connection and its registration - the thread loses the CPU and "
              "the other one runs until it blocks or ends.  Same oracle as "
              "loop-race.  Non-trivial = the preemption took place."),
+    Leg("line-pairs", run=run_line_pairs, gen=lambda tier: line_pairs_case(),
+        quick=800, thorough=20000, shards_quick=8, shards_thorough=16,
+        nt_floor=0.3,
+        rule="the loop-race scenes (also the two-program ones) with two or "
+             "three preemptions at generated source lines of generated "
+             "threads; same oracle; non-trivial = at least one preemption "
+             "took place."),
     Leg("dlc-eol", run=run_eol, enum=enum_eol, exhaustive=True,
         shards_quick=16, shards_thorough=16,
         rule="an established data link connection (connecting / accepted "
